@@ -493,6 +493,7 @@ class Normalizer:
         self.propagated = []
         if snap is not None and not os.environ.get("TYVERIF_NO_LOCALS"):
             ast.fix_missing_locations(node)
+            coalesce_aliases(node, snap)
             for _ in range(3):
                 p_ = propagate_new_temporaries(node, snap)
                 r_ = rename_back(node, snap)
@@ -506,6 +507,7 @@ class Normalizer:
         _identity_comprehensions(node)
         _split_tuple_assignments(node)
         if snap is not None and not os.environ.get("TYVERIF_NO_LOCALS"):
+            coalesce_aliases(node, snap)
             for _ in range(2):
                 p_ = propagate_new_temporaries(node, snap)
                 r_ = rename_back(node, snap)
@@ -1151,3 +1153,51 @@ def _expand_partials(fnode, snapshot):
                 blk = getattr(owner, fld, None)
                 if isinstance(blk, list) and not blk and fld == "body":
                     blk.append(ast.Pass())
+
+
+def coalesce_aliases(fnode, snapshot):
+    """`n = x` ... `x = n` in one block, n a NEW local, x untouched in between and n unused afterwards: n is x under another
+    name (what inlining a helper that re-binds its parameter and hands it back leaves behind) - n is renamed to x."""
+    params = {a.arg for a in fnode.args.posonlyargs + fnode.args.args + fnode.args.kwonlyargs}
+    changed = True
+    rounds = 0
+    while changed and rounds < 10:
+        changed = False
+        rounds += 1
+        for owner in ast.walk(fnode):
+            for fld in ("body", "orelse", "finalbody"):
+                blk = getattr(owner, fld, None)
+                if not (isinstance(blk, list) and blk and isinstance(blk[0], ast.stmt)):
+                    continue
+                for i, st in enumerate(blk):
+                    if not (isinstance(st, ast.Assign) and len(st.targets) == 1 and isinstance(st.targets[0], ast.Name) and isinstance(st.value, ast.Name)):
+                        continue
+                    n, x = st.targets[0].id, st.value.id
+                    if n in snapshot or n in params or n == x:
+                        continue
+                    back = [j for j in range(i + 1, len(blk)) if isinstance(blk[j], ast.Assign) and len(blk[j].targets) == 1
+                            and isinstance(blk[j].targets[0], ast.Name) and blk[j].targets[0].id == x and isinstance(blk[j].value, ast.Name) and blk[j].value.id == n]
+                    if not back:
+                        continue
+                    j = back[0]
+                    between = blk[i + 1:j]
+                    if any(isinstance(m, ast.Name) and m.id == x for s_ in between for m in ast.walk(s_)):
+                        continue
+                    # n is not used outside blk[i..j]
+                    inside = {id(m) for s_ in blk[i:j + 1] for m in ast.walk(s_)}
+                    if any(isinstance(m, ast.Name) and m.id == n and id(m) not in inside for m in ast.walk(fnode)):
+                        continue
+                    for s_ in between:
+                        for m in ast.walk(s_):
+                            if isinstance(m, ast.Name) and m.id == n:
+                                m.id = x
+                    del blk[j]
+                    del blk[i]
+                    if not blk:
+                        blk.append(ast.Pass())
+                    changed = True
+                    break
+                if changed:
+                    break
+            if changed:
+                break
